@@ -243,6 +243,30 @@ def observe(s):
         return {"exc": dict(exc_record(ex), kind="exception")}
 
 
+def casadi_rows(s):
+    """secondary observation (auxiliary, drift only): rows of the integer Jacobian of the CasADi DAE residual"""
+    import casadi as ca
+    import numpy as np
+    from pymoca import parser
+    from pymoca.backends.casadi.generator import generate
+    t = parser.parse(render(s), bypass_cache=True)
+    m = generate(t, "M", {})
+    f = m.dae_residual_function
+    xs = [ca.MX.sym("x%d" % i, f.size1_in(i)) for i in range(f.n_in())]
+    res = f(*xs)
+    if res is None or f.n_out() == 0:      # a model without equations
+        return []
+    jac = ca.Function("J", xs, [ca.jacobian(res, ca.vertcat(*xs[1:]))])
+    J = np.array(jac(*[np.zeros(f.size1_in(i)) for i in range(f.n_in())]))
+    names = [v.symbol.name() for cat in (m.states, m.der_states, m.alg_states, m.inputs, m.constants, m.parameters) for v in cat]
+    if J.shape[1] != len(names):
+        raise ValueError("jacobian has %d columns for %d variables" % (J.shape[1], len(names)))
+    rows = []
+    for r in J:
+        rows.append({names[k]: Fraction(float(x)).limit_denominator(1000) for k, x in enumerate(r) if x != 0})
+    return rows
+
+
 def kinds_of(rows, layout):
     ks = set()
     names = {}
@@ -302,6 +326,17 @@ def compare(s, obs, corrupt=None):
 def _one(s):
     obs = observe(s)
     recs, drifts = compare(s, obs)
+    if s.get("jacobian") and not recs and "rows" in obs:
+        # cross-check of the reader: the CasADi residual of the same model must have the same row space
+        try:
+            jr = casadi_rows(s)
+            cols = sorted({k for r in jr + obs["rows"] for k in r})
+            if rref(jr, cols) != rref(obs["rows"], cols):
+                drifts.append("casadi residual jacobian has a different row space than the flat equations")
+        except MachineryError:
+            raise
+        except Exception as ex:
+            drifts.append("casadi cross-check not possible: %s" % type(ex).__name__)
     return {"recs": recs, "drifts": drifts, "nrows": len(obs.get("rows", []))}
 
 
@@ -334,8 +369,8 @@ def configs(tier, seed):
              fulllen=3, parts=[((seed + k) % 8, 8) for k in range(4)], need=SHAPES + ["hier", "strict-gap"]),
         dict(cfg="Connect_layouts_thorough.cfg", what="connector layouts: <=1 clause all, 2 clauses 1/2, 3 clauses 1/8", hier=True, leaf=True,
              fulllen=2, parts=[((seed + k) % 4, 4) for k in range(2)], need=SHAPES + ["hier"]),
-        dict(cfg="Connect_three.cfg", what="three components: <=2 clauses all, 3 clauses 1/4, 4 clauses 1/32", hier=False, leaf=False,
-             fulllen=3, parts=[((seed + k) % 8, 8) for k in range(2)], need=SHAPES),
+        dict(cfg="Connect_three.cfg", what="three components: <=2 clauses all, 3 clauses 1/2, 4 clauses 1/16", hier=False, leaf=False,
+             fulllen=3, parts=[((seed + k) % 8, 8) for k in range(4)], need=SHAPES),
     ]
 
 
@@ -370,6 +405,8 @@ def run(ctx):
             progs = [pl for pl in progs if len(pl["prog"]["clauses"]) >= c["fulllen"]]
         rng = random.Random(ctx.seed * 7919 + part)
         scen = [scenario_of(pl, c["hier"], c["leaf"], rng, identity=(n % 3 == 0)) for n, pl in enumerate(progs)]
+        for n, s_ in enumerate(scen):      # CasADi cross-check on a share of the programs
+            s_["jacobian"] = (n % (5 if ctx.tier == "thorough" else 10) == 1)
         outs = pmap(_one, scen, procs)
         seen = set()
         for s, o in zip(scen, outs):
